@@ -40,6 +40,26 @@ Theorem C02_reader_refines_linespec :
 Proof. exact reader_refines_linespec. Qed.
 Print Assumptions C02_reader_refines_linespec.
 
+(** the caller stops after [k] calls of Scan (possibly between the records one
+    line queued) and Resets: from ANY earlier state, including one with
+    undelivered queued records, the next input's first [k] records are the
+    first [k] records prescribed for that input alone, at its own positions,
+    and the unit table is the one of the lines actually consumed *)
+Theorem C02_reader_take_refines_linespec :
+  forall is_space is_lower is_upper atoi parse_float k st fname labels content rs e st',
+  read_file_take is_space is_lower is_upper atoi parse_float k st fname labels content = (rs, e, st') ->
+  exists rs2,
+    linespec_take is_space is_lower is_upper atoi parse_float k (rs_units st) fname labels content
+      = (rs2, e, rs_units st') /\
+    Forall2 rec_equiv rs rs2.
+Proof. exact reader_take_refines_linespec. Qed.
+Print Assumptions C02_reader_take_refines_linespec.
+
+(** Reset wipes the queue: undelivered records of the previous input cannot reappear *)
+Theorem C02_reset_discards_queue : forall st q labels, reset (set_q st q) labels = reset st labels.
+Proof. exact reset_discards_queue. Qed.
+Print Assumptions C02_reset_discards_queue.
+
 (** a sequence of files through one reader = each file read on its own from
     its bare label (no configuration leaks), with only the unit table
     threaded through; stops at the first file that cannot be opened or read *)
